@@ -704,7 +704,9 @@ pub fn generate(g: &mut Gen) {
         }
         if case % 4 == 0 { ops.push(format!("datum c 121 - 2 i 9223372036854775808 m 1 b 01 a 2 i -18446744073709551616 n {}", hex(&[0xffu8; 9]))); }
         for _ in 0..2 {
-            if let Some(h) = gen_built(g) {
+            // (`Output::add_asset` adds quantities with an unchecked `+=`: two large amounts of one asset panic under
+            // overflow checks -- C40's staging-overflow outcome, not a mapping matter; such a draw is skipped)
+            if let Some(h) = guard_mut(|| gen_built(g)).flatten() {
                 if let Some(l) = txview_line(&format!("raw {h}")) { ops.push(l); }
                 // the same transaction in legal but non-canonical CBOR: inside the #6.24-wrapped items (inline datums,
                 // script refs) and anywhere else (witness datums, redeemer data, heads, definite <-> indefinite), kept
